@@ -19,6 +19,8 @@ type aProfile struct {
 	parkSender  float64
 	parkWorker  float64
 	spanLimit   float64
+	burst       float64 // traces whose spans all arrive inside one tick interval
+	reasonSeq   float64 // plans that are a sequence of decisions with recurring rule reasons
 	bigRates    bool
 	zeroDefault float64 // probability of zero (documented default) SendDelay / TraceTimeout
 	dryToggle   bool
@@ -27,10 +29,10 @@ type aProfile struct {
 var aProfiles = map[string]aProfile{
 	"C01": {dryRun: 0.05, ejection: 0.35, reloads: 0.4, smallKept: 0.25, parkSender: 0.3, parkWorker: 0.2, spanLimit: 0.3},
 	"C02": {dryRun: 0.1, ejection: 0.3, reloads: 0.3, smallKept: 0.15, parkSender: 0.3, parkWorker: 0.3, spanLimit: 0.3},
-	"C03": {dryRun: 0.0, ejection: 0.15, reloads: 0.0, parkSender: 0.1, parkWorker: 0.2, spanLimit: 0.5, zeroDefault: 0.12},
+	"C03": {dryRun: 0.0, ejection: 0.15, reloads: 0.0, parkSender: 0.1, parkWorker: 0.2, spanLimit: 0.5, zeroDefault: 0.12, burst: 0.15},
 	"C04": {dryRun: 0.0, ejection: 0.2, reloads: 0.2, parkSender: 0.2, spanLimit: 0.2, bigRates: true},
 	"C05": {dryRun: 1.0, ejection: 0.25, reloads: 0.3, parkSender: 0.3, parkWorker: 0.1, spanLimit: 0.3, bigRates: true, dryToggle: true},
-	"C06": {dryRun: 0.1, ejection: 0.2, reloads: 0.8, decor: true, parkSender: 0.4, spanLimit: 0.2},
+	"C06": {dryRun: 0.1, ejection: 0.2, reloads: 0.8, decor: true, parkSender: 0.4, spanLimit: 0.2, reasonSeq: 0.15},
 	"C07": {dryRun: 0.05, ejection: 1.0, reloads: 0.1, parkSender: 0.2, spanLimit: 0.2},
 }
 
@@ -65,11 +67,52 @@ func genFullQueue(r *Rng, p *Plan) {
 	p.SortOps()
 }
 
+// genReasonSeq: one worker decides a sequence of traces under a rules-based
+// sampler whose rules give different reasons, the reasons recurring in a random
+// order; afterwards a late span arrives for every trace and must carry the
+// reason of its own trace's decision.
+func genReasonSeq(r *Rng, tier string, p *Plan) {
+	p.N["workers"] = 1
+	p.N["send_ticker_us"] = 10_000
+	p.N["trace_timeout_us"] = 300_000
+	p.N["send_delay_us"] = 50_000
+	p.N["max_expired"] = 0
+	p.N["sampler"] = PickOf(r, int64(12), 12, 6, 11)
+	p.N["kept_size"] = 10000
+	p.N["host_meta"], p.N["rule_reason"], p.N["attrs"] = 0, 1, 0
+	n := r.Range(4, 12)
+	if tier == "thorough" {
+		n = r.Range(4, 30)
+	}
+	// two or three of the four f1 values, so that reasons recur
+	l0 := r.Intn(4)
+	letters := []int{l0, (l0 + 1 + r.Intn(3)) % 4, r.Intn(4)}
+	at := int64(1000)
+	for ti := 0; ti < n; ti++ {
+		l := letters[r.Intn(len(letters))]
+		bit := int64((l - ti%4 + 4) % 4)
+		p.Add(Op{K: "span", At: at, I: int64(ti), N: skRoot | bit<<8, M: 1})
+		at += PickOf(r, int64(70_000), 100_000, 130_000)
+	}
+	at += 500_000
+	for ti := 0; ti < n; ti++ {
+		if r.Bool(0.8) {
+			p.Add(Op{K: "span", At: at, I: int64(ti), N: int64(skChild), M: 1})
+			at += 5_000
+		}
+	}
+	p.SortOps()
+}
+
 func genA(check string) func(r *Rng, tier string, p *Plan) {
 	return func(r *Rng, tier string, p *Plan) {
 		pr := aProfiles[check]
 		if (check == "C07" || check == "C02") && r.Bool(0.08) {
 			genFullQueue(r, p)
+			return
+		}
+		if pr.reasonSeq > 0 && r.Bool(pr.reasonSeq) {
+			genReasonSeq(r, tier, p)
 			return
 		}
 		thorough := tier == "thorough"
@@ -164,6 +207,15 @@ func genA(check string) func(r *Rng, tier string, p *Plan) {
 			hasRoot := r.Bool(0.7)
 			rootPos := r.Intn(nsp)
 			client := PickOf(r, clientRates...)
+			burst := pr.burst > 0 && r.Bool(pr.burst)
+			if burst {
+				// all of the trace's spans inside one tick interval, more of them than
+				// any span limit: the limit is crossed, and spans (the root among them)
+				// keep arriving before the tick that decides the trace
+				t0 = (t0/ticker)*ticker + 1
+				nsp = r.Range(3, 9)
+				rootPos = r.Intn(nsp)
+			}
 			var times []int64
 			for s := 0; s < nsp; s++ {
 				var dt int64
@@ -182,6 +234,10 @@ func genA(check string) func(r *Rng, tier string, p *Plan) {
 				}
 				if dt < 0 {
 					dt = 0
+				}
+				if burst {
+					times = append(times, t0+r.I64n(ticker-2))
+					continue
 				}
 				times = append(times, snap(t0+dt))
 			}
